@@ -140,6 +140,7 @@ PROP_BINS = {
     "C05": ["monitor", "resolver"], "C06": ["monitor", "cursor"],
     "C08": ["codec"], "C09": ["store"], "C11": ["state", "stateguard"], "C13": ["path"], "C16": ["prov"], "C17": ["sched"],
     "C18": ["loop", "notify"], "C19": ["cache"], "C20": ["smart"], "C15": ["thread", "monitor"], "C14": ["event", "monitor"], "C10": ["fault", "monitor"], "C07": ["crash", "monitor"],
+    "ALGO": ["algo"],
 }
 
 
